@@ -43,3 +43,40 @@ package transport
 //gvc:  theory int
 //gvc:  ensures same: result ==> s.#refs[strid(n)] != 0 && forall(k, 0, 32, field(s.#refs[strid(n)], "plumbing.Reference.h").hash[k] == old.hash[k])
 //gvc:end
+
+// Property C40 as a provenance property of the filesystem loader: every
+// filesystem load() looks at, reads a gitfile from or builds a storage on is a
+// Chroot of the loader's base filesystem (or of such a chroot), whatever the
+// request path and the gitfile contents are. That billy's Chroot confines the
+// new root lexically to the old one is the trusted contract of Chroot.Chroot
+// (/verif/stdlib/std.gvc); symbolic links below the root are outside it.
+
+//gvc:func (*FilesystemLoader).load
+//gvc:  props C40
+//gvc:  theory int
+//gvc:  opt coarse
+//gvc:  opt frame args
+//gvc:  requires nn: l != nil
+//gvc:  sink Chroot requires base: recv.#jail == l.base.#jail
+//gvc:  sink Lstat requires jailed: recv.#jail == l.base.#jail
+//gvc:  sink readGitfile requires jailed: arg0.#jail == l.base.#jail
+//gvc:  sink NewStorageWithOptions requires jailed: arg0.#jail == l.base.#jail
+//gvc:  sink load requires same: recv == l
+//gvc:end
+
+//gvc:func readGitfile
+//gvc:  props C40
+//gvc:  theory int
+//gvc:  opt coarse
+//gvc:  opt frame args
+//gvc:  sink Open requires jailed: recv == fs && strid(arg0) == strid(".git")
+//gvc:end
+
+//gvc:func (*FilesystemLoader).Load
+//gvc:  props C40
+//gvc:  theory int
+//gvc:  opt coarse
+//gvc:  opt frame args
+//gvc:  requires nn: l != nil && u != nil
+//gvc:  sink load requires same: recv == l
+//gvc:end
